@@ -295,10 +295,10 @@ Lemma sim_pipe a b : sim a -> sim b -> sim (Z0Pipe a b).
 Proof.
   intros Ha Hb n rho v k s Inv Hn Hr HI Hk Hs. cbn [need] in Hn. destruct n as [|n]; [lia|].
   cbn [emb den0]. rewrite pipe_law.
-  assert (HK : K_ok (fun x ps' => eval_q bs n rho (emb b) x ps' k)).
+  assert (HK : K_ok Inv (fun x ps' => eval_q bs n rho (emb b) x ps' k)).
   { intros w s' Hs'. rewrite (Hb _ _ _ _ _ Inv) by (try lia; assumption). apply (run_list_ok Inv); assumption. }
   rewrite (Ha _ _ _ _ _ Inv) by (try lia; assumption). unfold run_res at 1.
-  rewrite (run_list_ext _ (fun x _ => run_res k (den0 rs b rho (fst x)))); try assumption.
+  rewrite (run_list_ext Inv _ (fun x _ => run_res k (den0 rs b rho (fst x)))); try assumption.
   - rewrite run_rbind. destruct (den0 rs a rho v); reflexivity.
   - intros w s' Hs'. apply (Hb _ _ _ _ _ Inv); try assumption. lia.
 Qed.
@@ -395,10 +395,10 @@ Proof.
   intros Ht n rho v k s Inv Hn Hr HI Hk Hs. cbn [need] in Hn. do 4 (destruct n as [|n]; [lia|]).
   cbn [emb den0]. unfold eval_q. cbn [evals_n step ev_q step_eval_q push_defs fold_left ev_t step_eval_t rev app].
   fold_eval.
-  assert (HK : K_ok (fun x ps' => iterate x ps' k)).
+  assert (HK : K_ok Inv (fun x ps' => iterate x ps' k)).
   { intros w s' Hs'. rewrite iterate_run by (apply HI; assumption). apply (run_list_ok Inv); assumption. }
   rewrite (Ht _ _ _ _ _ Inv) by (try lia; assumption). unfold run_res at 1.
-  rewrite (run_list_ext _ (fun x _ => run_res k (iter_res rs (fst x)))); try assumption.
+  rewrite (run_list_ext Inv _ (fun x _ => run_res k (iter_res rs (fst x)))); try assumption.
   - rewrite run_rbind. destruct (den0 rs t rho v); reflexivity.
   - intros w s' Hs'. apply iterate_run. apply HI. exact Hs'.
 Qed.
@@ -418,10 +418,10 @@ Proof.
   cbn [emb den0]. unfold eval_q. cbn [evals_n step ev_q step_eval_q push_defs fold_left ev_t step_eval_t rev app ev_index].
   unfold step_eval_index. cbn [index_key ev_t step step_eval_t rev app].
   fold_eval.
-  assert (HK : K_ok (fun x ps' => lift (fn_index2 (fst x) (VStr (c :: key))) (fun w => nav ps' x (VStr (c :: key)) w k))).
+  assert (HK : K_ok Inv (fun x ps' => lift (fn_index2 (fst x) (VStr (c :: key))) (fun w => nav ps' x (VStr (c :: key)) w k))).
   { intros w s' Hs'. cbn [fst plain]. rewrite index_run by (apply HI; assumption). apply (run_list_ok Inv); assumption. }
   rewrite (Ht _ _ _ _ _ Inv) by (try lia; assumption). unfold run_res at 1.
-  rewrite (run_list_ext _ (fun x _ => run_res k (of_nres rs (fn_index2 (fst x) (VStr (c :: key)))))); try assumption.
+  rewrite (run_list_ext Inv _ (fun x _ => run_res k (of_nres rs (fn_index2 (fst x) (VStr (c :: key)))))); try assumption.
   - rewrite (run_rbind k (fun w => of_nres rs (fn_index2 w (VStr (c :: key))))). destruct (den0 rs t rho v); reflexivity.
   - intros w s' Hs'. apply index_run. apply HI. exact Hs'.
 Qed.
@@ -433,13 +433,13 @@ Proof.
   fold_eval.
   set (K' := fun (x : tv) (_ : pst) => if truthy (fst x) then eval_q bs (S n) rho (emb a) (plain v) None k
                                        else eval_q bs (S n) rho (emb b) (plain v) None k).
-  assert (HK : K_ok K').
+  assert (HK : K_ok Inv K').
   { intros w s' Hs'. unfold K'. cbn [fst plain]. destruct (truthy w).
     - rewrite (Ha _ _ _ _ _ Inv) by (try lia; assumption). apply (run_list_ok Inv); assumption.
     - rewrite (Hb _ _ _ _ _ Inv) by (try lia; assumption). apply (run_list_ok Inv); assumption. }
   change (eval_q bs (S n) rho (emb c) (plain v) None K' s = run_res k (rbind (den0 rs c rho v) (fun w => if truthy w then den0 rs a rho v else den0 rs b rho v)) s).
   rewrite (Hc _ _ _ _ _ Inv) by (try lia; assumption). unfold run_res at 1.
-  rewrite (run_list_ext _ (fun x _ => run_res k ((fun w => if truthy w then den0 rs a rho v else den0 rs b rho v) (fst x)))); try assumption.
+  rewrite (run_list_ext Inv _ (fun x _ => run_res k ((fun w => if truthy w then den0 rs a rho v else den0 rs b rho v) (fst x)))); try assumption.
   - rewrite (run_rbind k (fun w => if truthy w then den0 rs a rho v else den0 rs b rho v)). destruct (den0 rs c rho v); reflexivity.
   - intros w s' Hs'. unfold K'. cbn [fst plain]. destruct (truthy w); [apply (Ha _ _ _ _ _ Inv)|apply (Hb _ _ _ _ _ Inv)]; try assumption; lia.
 Qed.
@@ -499,7 +499,7 @@ Proof.
   intros Ha Hh n rho v k s Inv Hn Hr HI Hk Hs. cbn [need] in Hn. do 3 (destruct n as [|n]; [lia|]).
   cbn [emb]. unfold eval_q, q_term. cbn [evals_n step ev_q step_eval_q push_defs fold_left ev_t step_eval_t rev app].
   fold_eval.
-  assert (HK : K_ok (fun y ps' => down (k y ps'))).
+  assert (HK : K_ok Inv (fun y ps' => down (k y ps'))).
   { intros w s' Hs'. unfold down. specialize (Hk w s' Hs'). destruct (k (plain w) None s') as [[[]|[]] s1]; exact Hk. }
   unfold try_catch at 1.
   rewrite (Ha _ _ _ _ _ Inv) by (try lia; assumption).
@@ -540,12 +540,12 @@ Proof.
   set (K' := fun (x0 : tv) (_ : pst) =>
                eval_q bs (S (S n)) (BVar (c :: x) x0 :: BVar (c :: x) (plain VNull) :: rho) (emb body) (plain v) None k).
   assert (HR : forall w, vars_only (bind_env rho (c :: x) w)) by (intros w; exact Hr).
-  assert (HK : K_ok K').
+  assert (HK : K_ok Inv K').
   { intros w s' Hs'. unfold K'. rewrite (Hbody _ _ _ _ _ Inv) by (try lia; try apply HR; assumption). apply (run_list_ok Inv); assumption. }
   change (eval_q bs (S (S n)) rho (emb src) (plain v) None K' s =
           run_res k (rbind (den0 rs src rho v) (fun w => den0 rs body (bind_env rho (c :: x) w) v)) s).
   rewrite (Hsrc _ _ _ _ _ Inv) by (try lia; assumption). unfold run_res at 1.
-  rewrite (run_list_ext _ (fun x0 _ => run_res k ((fun w => den0 rs body (bind_env rho (c :: x) w) v) (fst x0)))); try assumption.
+  rewrite (run_list_ext Inv _ (fun x0 _ => run_res k ((fun w => den0 rs body (bind_env rho (c :: x) w) v) (fst x0)))); try assumption.
   - rewrite (run_rbind k (fun w => den0 rs body (bind_env rho (c :: x) w) v)). destruct (den0 rs src rho v); reflexivity.
   - intros w s' Hs'. unfold K'. apply (Hbody _ _ _ _ _ Inv); [lia|apply HR|assumption|assumption|assumption].
 Qed.
